@@ -20,7 +20,7 @@ CLAIMS = {
  'C20': ('symbolic execution of the real table code from MIR (KW_PAIRS const, the six lazy_static KEYWORD_* initialisers, keyword_from_atom/to_atom, prims(), prim_map()) and of the real dispatchers (OriginalDialect::op from the repo, ChiaDialect::op from clvmr\'s MIR, with the flags DefaultProgramRunner uses per operators_version) on a symbolic 1-byte and a symbolic 4-byte opcode; z3 decides that every table opcode reaches an implementation, tables are mutually inverse per version, versions only add, and the modern primitive list agrees with the classic tables in both directions. Finite domain: same guarantee as exhaustive checking', 'DESIGN.md §4 C20'),
  'C07': ('bounded symbolic execution of the real convert_from_clvm_rs / convert_to_clvm_rs / both sha256tree functions / SExp::equal_to / == / impl Hash MIR: round trip and three-way hash agreement for every atom of 0..4 (thorough 0..9) bytes and every tree of <=3 (4) leaves with atoms of 0..2 (3) bytes in both integer modes; equality and Hash against encoding equality for every pair of atoms of 0..2 (3) bytes in every pair of spellings (fixed mode). SHA-256 is an injective uninterpreted function of its preimage', 'DESIGN.md §4 C07'),
  'C06': ('bounded differential symbolic execution: the real stepping evaluator (run, run_step, combine, choose_path, flatten_signed_int, convert_to_clvm_rs) against clvmr 0.16.2 traverse_path executed from clvmr\'s own MIR, for a program that is one atom in every spelling (Integer of 136 bits, Atom/QuotedString of 0..3 (thorough 0..6) arbitrary bytes, Nil) in every environment shape of <=3 (5) leaves. Partial: path lookup and the core-operator step function, not the operators delegated to clvmr', 'DESIGN.md §4 C06'),
- 'C04': ('bounded symbolic execution of the real path_optimizer / match_sexp / NodePath / compose_paths / casts MIR: every (OP ATOM) with OP any byte and ATOM any byte string of 0..9 (thorough 0..17) bytes is decided by z3. Partial: a lemma about the path-arithmetic mechanism the property names, not the whole optimiser (rule driver, constant folding are outside)', 'DESIGN.md §4 C04'),
+ 'C04': ('two bounded symbolic checks of the real classic optimiser MIR. (1) the whole optimize_sexp (all eight rules, memo table, pattern matcher, sub_args, seems_constant; constant folding delegates to clvmr run_program executed from clvmr\'s MIR) on every program tree of <=3 (thorough 4) leaves over {nil, 1..9}: whenever clvmr returns v for the program, the optimiser accepts it and clvmr returns v for its output. (2) path_optimizer / match_sexp / NodePath / compose_paths / casts on every (OP ATOM) with OP any byte and ATOM any byte string of 0..9 (thorough 0..17) bytes. Partial: larger programs and other operators are outside', 'DESIGN.md §4 C04'),
  'C08': ('bounded symbolic execution of the real codec MIR: int_from_bytes for every 0..9-byte string; sexp_from_stream for every input of <=4 (thorough <=6) bytes against a reference decoder of the format; sexp_to_stream + decode round trip for all trees <=3 (4) leaves with atoms of 0..2 (3) arbitrary bytes and 63/64-byte atoms; atom_size_blob for a symbolic 64-bit atom length (all five prefix classes and the error bound)', 'DESIGN.md §4 C08'),
 }
 
